@@ -12,7 +12,9 @@
    inertia phase, a new start that is not one of the L-w+1 weighted positions)
    makes the model return [Err]; every place where the Rust code can panic is a
    [Panic site].  The floating point part (PSSM, scores, weights, information
-   content) only influences the choices and is not modelled.
+   content) only influences the choices; it is modelled separately in SamplerF32.v
+   (choice_of / next_g compute the update and the Zoops decision from the state, libm
+   oracles and the generator's word; theorems in C16F.v), not in this file.
 
    Sequences are lists of symbol indices (the harness checks on every data set
    that StripedSequence::index and count_symbols agree with this view).
